@@ -92,7 +92,10 @@ partial def specOfJson (j : Json) : Except String Spec := do
   let str (f : String) : Except String String := j.getObjValAs? String f
   match k with
   | "str" => return .str (← str "s")
-  | "lit" => return .lit (← vOfJson (← j.getObjVal? "v"))
+  | "lit" =>
+    match ← vOfJson (← j.getObjVal? "v") with
+    | .str s => return .str s          -- a Python str is a str, however it was spelled in the case
+    | v => return .lit v
   | "tuple" => return .tuple (← subs "xs")
   | "list" => return .list (← subs "xs")
   | "dict" => return .dict false (← pairs "es")
@@ -179,6 +182,7 @@ partial def veq : V → V → Bool
 
 def truthy : V → Bool
   | .none => false
+  | .skip | .stop => false          -- boltons sentinels are falsy
   | .bool b => b
   | .int i => i != 0
   | .str s => !s.isEmpty
